@@ -33,6 +33,15 @@ Drop(f, k)   == [x \in DOMAIN f \ {k} |-> f[x]]
 SeqRange(q)  == {q[i] : i \in 1..Len(q)}
 UnionPier == "default_union_pier_id"
 
+\* The router (internal/router classify, the last step of delivery): what pier p is sent for a block is exactly the block's
+\* delivery metadata filed under p -- the transactions at the listed positions in the listed order with their valid / batch
+\* marks, the ids whose timeout fired, the children of one-to-many transactions that reached a final state -- nothing
+\* else, one wrapper of the block's height; a pier without entries gets one empty wrapper.
+\* counter: pier -> sequence of [pos, valid, batch]; tmeta, mmeta: sequences of [chain, ids]
+MetaList(lst, p) == LET xs == {x \in SeqRange(lst) : x.chain = p} IN IF xs = {} THEN <<>> ELSE (CHOOSE x \in xs : TRUE).ids
+RouteOf(p, counter, tmeta, mmeta) ==
+  [txs |-> IF p \in DOMAIN counter THEN counter[p] ELSE <<>>, tmo |-> MetaList(tmeta, p), multi |-> MetaList(mmeta, p)]
+
 Final == {"SUCCESS", "FAILURE", "ROLLBACK"}
 \* the protocol state machine of one cross-chain transaction (C04); "TIMEOUT" is the expiry at H+T
 NextStatus(cur, ev) ==
